@@ -130,8 +130,8 @@ def r3(ctx):
     methods = [b for b in f.bodies.values() if b.impl_self == RP and b.kind == "assoc_fn"]
     rep.check(len(methods) >= 14, "policy-methods", "%d RandomPolicy methods" % len(methods), "only %d RandomPolicy methods found (>= 14 confirmed)" % len(methods))
     for b in methods:
-        if b.name in ("new", "decr_mem_usage"):
-            continue  # decr_mem_usage is the subtraction primitive itself; its callers are judged
+        if b.impl_trait is None and b.name != "incr_mem_usage":
+            continue  # inherent helpers (decr_mem_usage, ...) are inlined into the trait methods that use them
         argn = [b.local_name(i) or "a%d" % i for i in b.arg_locals()]
         I = Interp(f, loop_bound=1)
         paths = I.run(b, [P(n) for n in argn])
@@ -143,9 +143,9 @@ def r3(ctx):
                 if e.name == CACHE + "::set":
                     rep.check(any(j < i for j in adds), "%s:set-preceded-by-add" % b.name, "inner set preceded by usage += size", "RandomPolicy::%s writes to the inner store without accounting the record first: stored bytes can exceed what the sweep sees" % b.name, b.loc())
                 if e.args and tform(e.args[0]) == F(P("self"), "memory_usage") and e.name.split("::")[-1] in ("store", "swap", "fetch_and", "fetch_min", "fetch_update", "compare_exchange", "fetch_nand", "fetch_or", "fetch_xor"):
-                    # lowering the usage wholesale is only justified when the store was seen empty on this path
-                    saw_empty = any(isinstance(c, tuple) and c[0] == "cmp" and c[1] == "Eq" and truth and any(isinstance(x, tuple) and x[0] == "call" and x[1].split("::")[-1] in ("len",) for x in atoms(c)) for c, truth, _s, _at in p.state.pc) or any(isinstance(c, tuple) and truth and any(isinstance(x, tuple) and x[0] == "call" and x[1].endswith("::is_empty") for x in atoms(c)) for c, truth, _s, _at in p.state.pc)
-                    rep.check(saw_empty, "%s:usage-overwritten" % b.name, "usage reset only after the store was seen empty", "RandomPolicy::%s overwrites the usage counter (%s) without having observed an empty store: after e.g. a *delayed* flush the items are still stored but no longer accounted, and the limit is exceeded" % (b.name, e.name.split("::")[-1]), b.loc())
+                    # overwriting the counter is never atomic with the content: a set on another connection may already be
+                    # accounted but not yet inserted (or the reverse), even if this path has just seen the store empty
+                    rep.bad("%s:usage-overwritten" % b.name, "RandomPolicy::%s overwrites the usage counter (%s): the counter is no longer the sum of what was added and removed — a store that is accounted but not yet written (or items that a delayed flush has not removed) are forgotten, and the limit is exceeded / the counter wraps" % (b.name, e.name.split("::")[-1]), b.loc())
                 if e.name.endswith("fetch_sub") and tform(e.args[0]) == F(P("self"), "memory_usage"):
                     arg = e.args[1]
                     a = atoms(arg)
